@@ -104,7 +104,141 @@ func renderSites(m map[site]int) string {
 // sharedWrites: for every function of the package, the assignments whose left side is rooted
 // at a receiver, a parameter or a package-level variable (a conservative write footprint),
 // and the package-level variables themselves.
+// sharedTypes returns the named struct types of the package whose objects can be shared between
+// goroutines through the package's API: the types implementing one of its exported interfaces
+// (the objects handed to callers), the types of its package-level variables, and everything
+// reachable from those through fields, pointers, slices, maps and non-empty interfaces. A
+// struct type outside this set (a private helper such as an iterator created afresh by the call
+// that returns it) is owned by the call that made it, and writes to its fields are not writes
+// to shared state; writes THROUGH it to a field of a shared type are still attributed to that
+// shared type (the owner of a written location is the struct that holds it).
+func sharedTypes(p *pkgInfo) map[string]bool {
+	scope := p.pkg.Scope()
+	var structs []*types.Named
+	var ifaces []*types.Interface
+	for _, n := range scope.Names() {
+		tn, ok := scope.Lookup(n).(*types.TypeName)
+		if !ok {
+			continue
+		}
+		nt, ok := tn.Type().(*types.Named)
+		if !ok {
+			continue
+		}
+		switch u := nt.Underlying().(type) {
+		case *types.Struct:
+			structs = append(structs, nt)
+		case *types.Interface:
+			if tn.Exported() && u.NumMethods() > 0 {
+				ifaces = append(ifaces, u)
+			}
+		}
+	}
+	implementers := func(it *types.Interface) []*types.Named {
+		var out []*types.Named
+		for _, nt := range structs {
+			if types.Implements(nt, it) || types.Implements(types.NewPointer(nt), it) {
+				out = append(out, nt)
+			}
+		}
+		return out
+	}
+	shared := map[string]bool{}
+	seen := map[types.Type]bool{}
+	var reach func(t types.Type)
+	reach = func(t types.Type) {
+		if t == nil || seen[t] {
+			return
+		}
+		seen[t] = true
+		switch u := t.(type) {
+		case *types.Named:
+			if u.Obj().Pkg() != p.pkg {
+				return
+			}
+			switch uu := u.Underlying().(type) {
+			case *types.Struct:
+				shared[u.Obj().Name()] = true
+				for i := 0; i < uu.NumFields(); i++ {
+					reach(uu.Field(i).Type())
+				}
+			case *types.Interface:
+				if uu.NumMethods() > 0 {
+					for _, nt := range implementers(uu) {
+						reach(nt)
+					}
+				}
+			default:
+				reach(uu)
+			}
+		case *types.Pointer:
+			reach(u.Elem())
+		case *types.Slice:
+			reach(u.Elem())
+		case *types.Array:
+			reach(u.Elem())
+		case *types.Chan:
+			reach(u.Elem())
+		case *types.Map:
+			reach(u.Key())
+			reach(u.Elem())
+		case *types.Struct:
+			for i := 0; i < u.NumFields(); i++ {
+				reach(u.Field(i).Type())
+			}
+		case *types.Interface:
+			if u.NumMethods() > 0 {
+				for _, nt := range implementers(u) {
+					reach(nt)
+				}
+			}
+		}
+	}
+	for _, it := range ifaces {
+		for _, nt := range implementers(it) {
+			reach(nt)
+		}
+	}
+	for _, n := range scope.Names() {
+		if v, ok := scope.Lookup(n).(*types.Var); ok {
+			reach(v.Type())
+		}
+	}
+	return shared
+}
+
+// ownerStruct gives the struct type of this package that holds the location an assignment writes
+// (x.f = …: the type of x; x.m[k] = …: the type of x), or "" when there is none in sight.
+func ownerStruct(p *pkgInfo, lhs ast.Expr) string {
+	for e := lhs; ; {
+		switch x := e.(type) {
+		case *ast.SelectorExpr:
+			if tv, ok := p.info.Types[x.X]; ok && tv.Type != nil {
+				t := tv.Type
+				if pt, ok := t.Underlying().(*types.Pointer); ok {
+					t = pt.Elem()
+				}
+				if nt, ok := t.(*types.Named); ok && nt.Obj().Pkg() == p.pkg {
+					if _, ok := nt.Underlying().(*types.Struct); ok {
+						return nt.Obj().Name()
+					}
+				}
+			}
+			e = x.X
+		case *ast.IndexExpr:
+			e = x.X
+		case *ast.StarExpr:
+			e = x.X
+		case *ast.ParenExpr:
+			e = x.X
+		default:
+			return ""
+		}
+	}
+}
+
 func sharedWrites(p *pkgInfo) (writes []string, globals []string) {
+	shared := sharedTypes(p)
 	for _, f := range p.files {
 		for _, d := range f.Decls {
 			switch x := d.(type) {
@@ -167,6 +301,9 @@ func sharedWrites(p *pkgInfo) (writes []string, globals []string) {
 						}
 						isGlobal := obj != nil && obj.Parent() == p.pkg.Scope()
 						if (roots[id.Name] && depth > 0) || isGlobal {
+							if own := ownerStruct(p, lhs); own != "" && !shared[own] && !isGlobal {
+								return // a field of a private helper object owned by the call that made it
+							}
 							writes = append(writes, name+"\x00"+p.text(lhs))
 						}
 					}
